@@ -122,6 +122,15 @@ def run(e: Engine, rep: Report):
              'attempt number) - a domain whose exchangers are all '
              'momentarily unreachable is a transient failure')
     n23(e, rep)
+    rep.rule('N24', 'which output stream of the delivery program is quoted '
+             '(and read for its leading 5.X.X) is chosen on the text with '
+             'the white space taken off: in the raise_error methods of the '
+             'pipe relays no `or` chain has the raw stdout / stderr parameter '
+             'as an operand that another operand follows (a program that '
+             'prints a blank line on stdout and "5.1.1 ..." on stderr is '
+             'otherwise answered from the blank stream: the permanent '
+             'failure is reported as a transient one)')
+    n24(e, rep)
     rep.floor('N1', 9, 'relay implementations / set sites')
     rep.floor('N2', 12, 'client command sites')
 
@@ -2603,3 +2612,35 @@ def n23(e: Engine, rep: Report):
     if n == 0:
         rep.ok('N23', f.qname, 'get() raises no ValueError under a test',
                reason='nothing to judge', nontrivial=False)
+
+
+# ---------------------------------------------------------------------- N24
+def n24(e: Engine, rep: Report):
+    n = 0
+    for f in sorted(e.p.functions.values(), key=lambda f: f.qname):
+        if f.name != 'raise_error' or \
+                not f.module.name.startswith('slimta.relay.pipe'):
+            continue
+        params = [a.arg for a in f.node.args.args][2:4]
+        rep.functions.add(f.qname)
+        for x in walk_own(f.node):
+            if not (isinstance(x, ast.BoolOp) and isinstance(x.op, ast.Or)):
+                continue
+            n += 1
+            rep.evaluations += 1
+            raw = [v.id for v in x.values[:-1]
+                   if isinstance(v, ast.Name) and v.id in params]
+            rep.check(not raw, 'N24', f.qname,
+                      '`%s`' % ' '.join(ast.unparse(x).split())[:60],
+                      '`%s` picks the stream on the raw output: a stream '
+                      'that holds only a line break is true, so the other '
+                      'stream - the one with the diagnostic and its 5.X.X '
+                      'status - is never looked at and the failure is '
+                      'reported with the wrong class'
+                      % ' '.join(ast.unparse(x).split())[:60],
+                      loc=f.loc(x), reason='operands are stripped / derived '
+                      'values, or the raw parameter stands last')
+    if n == 0:
+        rep.ok('N24', 'slimta.relay.pipe', 'no `or` chain in the raise_error '
+               'methods', nontrivial=False, reason='nothing chosen by '
+               'truthiness')
